@@ -63,7 +63,7 @@ def run(module, cfg, consts=None, env=None, workers=1, simulate=None, depth=None
     """module: name of a module in /verif/spec; cfg: text of the configuration file."""
     with _lock:
         _n[0] += 1
-        work = scratch() / ("tlc%d" % _n[0])
+        work = scratch() / ("tlc%d_%d" % (os.getpid(), _n[0]))
     work.mkdir()
     if consts:
         # constants that a .cfg cannot express (sequences, negative numbers): wrapper module MC_<module>
